@@ -137,4 +137,6 @@ def run(ctx):
     ns = len(ctx.suite_names)
     rep.floor('R10.1', 'decoder Ok paths analysed', n_exact + sum(1 for o in rep.obligations if o['rule'] == 'R10.1' and not o['ok']), 11 * ns)
     rep.floor('R10.2', 'round trips analysed', n_rt + sum(1 for o in rep.obligations if o['rule'] == 'R10.2' and not o['ok']), 11 * ns)
+    from rules import profile
+    profile.check(ctx, rep, 'R10.P', [tp + '::deserialize' for tp in DECODERS.values()] + [tp + '::serialize' for tp in DECODERS.values()])
     return rep
